@@ -1,0 +1,12 @@
+//go:build verif
+
+package trim
+
+// Contracts for the IDL trimmer as far as its callers under contract need them (comment-only file, read by
+// /verif/engine). TrimAST is not verified: its effect is confined to the syntax trees and its own argument record.
+
+//@ func TrimAST(arg *TrimASTArg) (trimResultInfo *TrimResultInfo, err error)
+//@   trusted
+//@   requires arg != nil
+//@   ensures err == nil ==> trimResultInfo != nil
+//@   modifies parser.Thrift.Structs, parser.Thrift.Unions, parser.Thrift.Exceptions, parser.Thrift.Services, parser.Thrift.Includes, parser.Thrift.Typedefs, parser.Thrift.Enums, parser.Thrift.Constants, parser.Thrift.Name2Category, parser.Service.Functions, parser.Service.Extends, parser.StructLike.Fields, parser.Include.Used, parser.Include.Reference, TrimASTArg.TrimMethods, TrimASTArg.Preserve, TrimASTArg.MatchGoName, TrimASTArg.DisablePreserveComment
